@@ -12,7 +12,7 @@ R4  theory conflicts become clauses over their own literals: theory::analyze_and
 from ..expr import LocalEnv, canon, show
 from ..facts import AnalysisBroken, short, src, walk
 from ..schema import posted, show_clause
-from ..tables import VecBuilder, arm_of, fmt_items
+from ..tables import VecBuilder, arm_of, enum_paths, fmt_items
 from .. import cfg
 from .C01 import MUST_CHECK
 
@@ -53,12 +53,46 @@ def r1(ctx, fs):
             guard_txt = None
             for a in f.ancestors(n):
                 if a.get('k') == 'IfStmt' and any(m is n for m in walk(a['slots'].get('then'))):
-                    c = canon(a['slots']['cond'], None)
-                    guard_txt = show(c)
-                    for d in _disj(c):
-                        if isinstance(d, tuple) and d[0] == '!' and isinstance(d[1], tuple) and d[1][0] in ('mcall', 'call') and d[1][1] in MUST_CHECK:
-                            guarded = True
+                    guard_txt = show(canon(a['slots']['cond'], None))
                     break
+            # every path of the enclosing region (loop body / lambda / function) that ends in this throw has seen a consistency call come back false:
+            # decided on the atomic decisions of the path, so `if (!c) throw`, `if (c) {..} else throw`, `if (x && !c) throw`, early-continue forms are all one
+            region = f.body
+            for a in f.ancestors(n):
+                if a.get('k') in ('ForStmt', 'WhileStmt', 'DoStmt', 'CXXForRangeStmt'):
+                    region = a['slots']['body']
+                    break
+                if a.get('k') == 'LambdaExpr':
+                    region = (a.get('c') or [f.body])[0]
+                    break
+            try:
+                ps = [p for p in enum_paths(region) if p.endnode is n]
+            except AnalysisBroken:
+                ps = []
+            if ps:
+                def failed_call(p):
+                    for kind, node, pol in p.conds:
+                        if kind != 'if':
+                            continue
+                        t = canon(node, None)
+                        neg = isinstance(t, tuple) and len(t) == 2 and t[0] == '!'
+                        if neg:
+                            t, pol = t[1], not pol
+                        if pol is False and isinstance(t, tuple) and t[0] in ('mcall', 'call') and t[1] in MUST_CHECK:
+                            return True
+                    return False
+                guarded = all(failed_call(p) for p in ps)
+            else:
+                # the throw sits in a construct the path enumeration keeps opaque (a catch handler): the enclosing if must test the failed call directly
+                for a in f.ancestors(n):
+                    if a.get('k') == 'IfStmt' and any(m is n for m in walk(a['slots'].get('then'))):
+                        for d in _disj(canon(a['slots']['cond'], None)):
+                            if isinstance(d, tuple) and d[0] == '!' and isinstance(d[1], tuple) and d[1][0] in ('mcall', 'call') and d[1][1] in MUST_CHECK:
+                                guarded = True
+                        break
+            if ps:
+                if not guard_txt:
+                    guard_txt = ' ; '.join(sorted({('' if c[2] else 'not ') + show(canon(c[1], None))[:60] for p in ps for c in p.conds if c[0] == 'if'}))[:200]
             ctx.instance(rid, [f.id, short(n.get('loc'))], {'function': f.id, 'throws': t.rsplit('::', 1)[-1], 'guard': (guard_txt or '')[:160], 'failed_consistency_call': guarded})
             if guarded:
                 continue
